@@ -37,14 +37,28 @@ class CustomError(Exception):
         self.who, self.detail = who, detail
 
 
+class Sealed(Exception):
+    """an exception whose instances refuse new attributes (think of a frozen
+    dataclass): whoever wants to annotate it has to cope"""
+
+    def __setattr__(self, name, value):
+        raise AttributeError("instances of Sealed are read-only (%s)" % name)
+
+
 class Fatal(BaseException):
     """an application-defined BaseException: asyncio stores it in the task like
     any other exception (only KeyboardInterrupt / SystemExit are special)"""
 
 
-def make_exception(kind, who):
+def make_exception(kind, who, trace=None):
     if kind == 'base':
         return Fatal(who)
+    if kind == 'sealed':
+        return Sealed(who)
+    if kind == 'shared' and trace is not None:
+        # one pre-built instance for the whole program (a sentinel), raised by
+        # whoever needs it, possibly seen before by code that is still running
+        return trace.shared_exception
     if kind == 'empty':
         return Boom()                                   # str(exc) == ''
     if kind == 'multiline':
@@ -59,6 +73,10 @@ def make_exception(kind, who):
         return ExceptionGroup("several things went wrong in %s" % who, [Boom(who), KeyError(who)])
     if kind == 'queue':
         return asyncio.QueueEmpty()                     # a job's own: the library uses queues itself
+    if kind == 'runtime':
+        return RuntimeError("%s cannot go on" % who)    # asyncio raises RuntimeError for reasons of its own
+    if kind == 'notimpl':
+        return NotImplementedError(who)
     return Boom(who)
 
 
@@ -66,6 +84,7 @@ class Trace:
     def __init__(self, loop):
         self.events = []
         self.loop = loop
+        self.shared_exception = Boom("the program's one and only sentinel")
 
     def log(self, kind, who, **extra):
         event = dict(seq=len(self.events), t=self.loop.time(),
@@ -115,6 +134,11 @@ def make_result(kind, who):
         fut = asyncio.get_running_loop().create_future()
         fut.set_result(('inner result of', who))
         return fut
+    if kind == 'pending':
+        # the same, not completed yet (and nobody ever will): still only a value
+        return asyncio.get_running_loop().create_future()
+    if kind == 'excval':
+        return Boom("returned, not raised, by %s" % who)
     return Result(who)
 
 
@@ -176,6 +200,14 @@ async def body(trace, spec, who):
             noted.append(True)
             trace.log('cancel', who)
     try:
+        if spec.get('touch'):
+            # the job meets the program's sentinel exception on its way (raises
+            # and handles it itself) and goes on: the instance now remembers this
+            # very frame in its traceback
+            try:
+                raise trace.shared_exception
+            except Boom:
+                pass
         for _ in range(spec.get('pre', 0)):
             await asyncio.sleep(0)
         dur = spec.get('dur', 0)
@@ -221,7 +253,7 @@ async def body(trace, spec, who):
             trace.log('cancel_done', who, interrupted=cut_short)
         raise
     if spec.get('outcome') == 'raise':
-        exc = make_exception(spec.get('exc'), who)
+        exc = make_exception(spec.get('exc'), who, trace)
         trace.log('raise', who, exc=exc)
         raise exc
     val = make_result(spec.get('retval'), who)
@@ -504,6 +536,18 @@ def inspect_everything(top, reg):
                 sched.predecessors(job)
                 sched.successors_downstream(job)
                 sched.predecessors_upstream(job)
+            # questions about jobs that live elsewhere in the tree (documented
+            # answer: nothing), and about several jobs at once
+            foreign = [j for j in reg.values() if j is not sched and j not in sched.jobs
+                       and hasattr(j, 'required')][:3]
+            for job in foreign:
+                sched.predecessors(job)
+                list(sched.successors(job))
+                sched.predecessors_upstream(job)
+                sched.successors_downstream(job)
+            if len(members) >= 2:
+                sched.predecessors_upstream(*members[-2:])
+                sched.successors_downstream(*members[-2:])
             sched.check_cycles()
             sched.stats()
             repr(sched)
@@ -598,6 +642,16 @@ def execute(spec, loop_seed=None, horizon=None, quiescent=None, run_on=1000.0,
     exe.trace, exe.loop, exe.spec, exe.loop_seed = trace, loop, spec, loop_seed
     asyncio.set_event_loop(loop)
     out = io.StringIO()
+    # should the library ask for a brand-new event loop in the middle of an
+    # execution (it has no reason to: one is current), it gets this one again,
+    # so that whatever it does next still happens in virtual time, on the record
+    real_new_loop = asyncio.new_event_loop
+    exe.loops_requested = 0
+
+    def same_loop():
+        exe.loops_requested += 1
+        return loop
+    asyncio.new_event_loop = same_loop
     try:
         with patched_clock(loop), contextlib.redirect_stdout(out):
             top, reg = build(trace, spec)
@@ -717,6 +771,7 @@ def execute(spec, loop_seed=None, horizon=None, quiescent=None, run_on=1000.0,
                 except BaseException:                   # noqa
                     pass
         finally:
+            asyncio.new_event_loop = real_new_loop
             asyncio.set_event_loop(None)
             # coroutine objects of coroutine-based jobs that never ran
             for job in getattr(exe, 'reg', {}).values():
